@@ -133,7 +133,7 @@ fn poly_label_body<S: Src, const N: usize>(s: &mut S, r: i32) {
     core::mem::forget(loc);
     core::mem::forget(poly);
 }
-pub fn c07_t_e1_tri_label<S: Src>(s: &mut S) {
+pub fn c07_x_e1_tri_label<S: Src>(s: &mut S) {
     poly_label_body::<S, 3>(s, 2)
 }
 pub fn c07_x_e1_quad_label<S: Src>(s: &mut S) {
@@ -426,7 +426,7 @@ pub fn replay(name: &str, vals: Vec<Vec<u8>>) -> ReplayOut {
 }
 
 harnesses! { k, "sel_raw_gds.rs";
-    #[kani::unwind(6)] c07_t_e1_tri_label;
+    #[kani::unwind(6)] c07_x_e1_tri_label;
     #[kani::unwind(7)] c07_x_e1_quad_label;
     c07_q_e1_rect_label;
     #[kani::unwind(4)] c07_q_e1_path_label;
